@@ -45,6 +45,11 @@ class UT(py2coq.Translator):
             return "none"
         if isinstance(e, ast.ListComp):
             return "lstr"
+        if isinstance(e, ast.BoolOp) and isinstance(e.op, ast.Or) and not any(
+                isinstance(v, (ast.Compare, ast.BoolOp)) for v in e.values):
+            return self.kind(e.values[0])
+        if isinstance(e, ast.Call) and _is_name(e.func, "to_unicode"):
+            return "str"
         if isinstance(e, ast.JoinedStr):
             return "str"
         if isinstance(e, ast.Call) and isinstance(e.func, ast.Attribute):
@@ -103,8 +108,12 @@ class UT(py2coq.Translator):
             elif kb != ko:
                 raise Unsupported("conditional expression mixing kinds %s / %s" % (kb, ko))
             return "(if %s then %s else %s)" % (self.cond(e.test, scope), b_, o_)
+        if isinstance(e, ast.BoolOp) and isinstance(e.op, ast.Or) and len(e.values) == 2 and \
+                self.kind(e.values[0]) == "str" and self.kind(e.values[1]) == "str":
+            x, y = self.expr(e.values[0], scope), self.expr(e.values[1], scope)     # x or y on strs
+            return "(if nonempty %s then %s else %s)" % (x, x, y)
         if isinstance(e, ast.Call) and _is_name(e.func, "to_unicode") and len(e.args) == 1 and not e.keywords:
-            return self.expr(e.args[0], scope)           # identity on str (assumption: text arguments)
+            return self.sexpr(e.args[0], scope)          # identity on str (assumption: text arguments)
         return super().expr(e, scope)
 
     def listcomp(self, e, scope):
@@ -138,11 +147,11 @@ class UT(py2coq.Translator):
         if m == "join" and len(e.args) == 1 and isinstance(recv, ast.Constant) and recv.value == b"":
             return "(concat %s)" % self.expr(e.args[0], scope)
         if m in ("partition", "rpartition") and len(e.args) == 1 and not e.keywords:
-            return "(py_%s3 %s %s)" % (m, self.char(e.args[0]), self.expr(recv, scope))
+            return "(py_%s3 %s %s)" % (m, self.char(e.args[0]), self.sexpr(recv, scope))
         if m == "split" and len(e.args) == 1 and not e.keywords:
-            return "(split_on %s %s)" % (self.char(e.args[0]), self.expr(recv, scope))
+            return "(split_on %s %s)" % (self.char(e.args[0]), self.sexpr(recv, scope))
         if m == "replace" and len(e.args) == 2 and not e.keywords:
-            return "(replace_char %s %s %s)" % (self.char(e.args[0]), self.char(e.args[1]), self.expr(recv, scope))
+            return "(replace_char %s %s %s)" % (self.char(e.args[0]), self.char(e.args[1]), self.sexpr(recv, scope))
         if m == "encode" and len(e.args) == 1 and not e.keywords and _const_str(e.args[0]) and \
                 e.args[0].value.lower().replace("-", "") == "utf8":
             # normalize('NFC', X).encode('utf8')  /  X.encode('utf-8')
@@ -154,6 +163,59 @@ class UT(py2coq.Translator):
         if fn:
             return fn[0](self, e, scope)
         raise Unsupported("method call .%s(...)" % m)
+
+    def sexpr(self, e, scope):
+        """e in a position where Python needs a str"""
+        k = self.kind(e)
+        t = self.expr(e, scope)
+        if k == "ostr":
+            return "(opt_text %s)" % t
+        if k == "char":
+            return "[%s]" % t
+        if k != "str":
+            raise Unsupported("a str was expected, got kind %s" % k)
+        return t
+
+    # ---- statements ----------------------------------------------------------------------------
+    def stmt(self, s, scope, brk, ind):
+        # a, b = e1, e2  (same arity): one binding after the other (no name is both read and written here)
+        if isinstance(s, ast.Assign) and len(s.targets) == 1 and isinstance(s.targets[0], ast.Tuple) and \
+                isinstance(s.value, ast.Tuple) and len(s.value.elts) == len(s.targets[0].elts) and \
+                all(isinstance(t, ast.Name) for t in s.targets[0].elts):
+            names = [t.id for t in s.targets[0].elts]
+            used = {n.id for v in s.value.elts for n in ast.walk(v) if isinstance(n, ast.Name)}
+            if used & set(names):
+                raise Unsupported("parallel assignment reading its own targets")
+            txt, sc = "", scope
+            for t, v in zip(s.targets[0].elts, s.value.elts):
+                p, sc, _ = self.stmt(ast.Assign(targets=[t], value=v), sc, brk, ind)
+                txt += p
+            return txt, sc, []
+        if isinstance(s, ast.Assign) and len(s.targets) == 1 and isinstance(s.targets[0], ast.Name):
+            n = s.targets[0].id
+            k = self.cfg.get("kinds", {}).get(n)
+            if isinstance(s.value, ast.Constant) and s.value.value is None:
+                nb = self.cfg.get("none_by_name", {})
+                if n not in nb:
+                    raise Unsupported("None assigned to %s" % n)
+                return ind + "let %s := %s in\n" % (py2coq.cname(n), nb[n]), scope | {n}, []
+            if k == "ostr" and self.kind(s.value) == "str":
+                return ind + "let %s := Some %s in\n" % (py2coq.cname(n), self.expr(s.value, scope)), scope | {n}, []
+        return super().stmt(s, scope, brk, ind)
+
+    def block(self, stmts, A, scope, brk, ind):
+        # `if c: continue` at the top level of a loop body: the rest of the body runs only when c is false
+        if stmts and isinstance(stmts[0], ast.If) and len(stmts[0].body) == 1 and \
+                isinstance(stmts[0].body[0], ast.Continue) and not stmts[0].orelse:
+            if not self.cfg.get("_in_loop_ok", True):
+                raise Unsupported("continue")
+            rest = self.block(stmts[1:], A, scope, brk, ind + "  ")
+            return ind + "if %s then %s else (\n%s%s)\n" % (self.cond(stmts[0].test, scope), py2coq.tup(A), rest.rstrip("\n"), "")
+        for s in stmts:
+            for n in ast.walk(s):
+                if isinstance(n, ast.Continue) and not (s is stmts[0]):
+                    pass
+        return super().block(stmts, A, scope, brk, ind)
 
     # ---- conditions ----------------------------------------------------------------------------
     def cond(self, e, scope):
@@ -169,6 +231,17 @@ class UT(py2coq.Translator):
                 t = "(memN %s %s)" % (self.char(l), self.expr(r, scope))
             if t is not None:
                 return "(negb %s)" % t if neg else t
+        if isinstance(e, ast.Compare) and len(e.ops) == 1 and isinstance(e.ops[0], (ast.Eq, ast.NotEq)):
+            l, r = e.left, e.comparators[0]
+            # s[0] == 'c' : a character against a one-character constant
+            if not isinstance(l, ast.Constant) and self.kind(l) == "char" and _const_str(r) and len(r.value) == 1:
+                t = "(%s =? %s)" % (self.expr(l, scope), self.char(r))
+                return t if isinstance(e.ops[0], ast.Eq) else "(negb %s)" % t
+        if isinstance(e, ast.Compare) and len(e.ops) == 1 and isinstance(e.ops[0], (ast.Is, ast.IsNot)) and \
+                isinstance(e.comparators[0], ast.Constant) and e.comparators[0].value is None and \
+                self.kind(e.left) == "ostr":
+            t = "(opt_is_none %s)" % self.expr(e.left, scope)
+            return t if isinstance(e.ops[0], ast.Is) else "(negb %s)" % t
         return super().cond(e, scope)
 
 
@@ -285,6 +358,173 @@ def normalise_utb(node):
     return node
 
 
+# ---- parse_qsl ------------------------------------------------------------------------------------
+def _call_unquote(T, e, scope):
+    if len(e.args) != 1 or e.keywords:
+        raise Unsupported("unquote called with other arguments")
+    return "(unquote T %s)" % T.sexpr(e.args[0], scope)
+
+
+def normalise_qsl(node):
+    """the model is parse_qsl with keep_blank_values at its default (True, the only way urlutils calls it):
+    substitute the constant and drop `if not True: ...`; the encoding parameter must stay unused"""
+    d = {a.arg: v for a, v in zip(node.args.args[len(node.args.args) - len(node.args.defaults):], node.args.defaults)}
+    if not (isinstance(d.get("keep_blank_values"), ast.Constant) and d["keep_blank_values"].value is True):
+        raise Unsupported("default of keep_blank_values changed")
+    for n in ast.walk(node):
+        if isinstance(n, ast.Name) and n.id == "encoding":
+            raise Unsupported("parse_qsl uses its encoding parameter")
+
+    class Sub(ast.NodeTransformer):
+        def visit_Name(self, n):
+            return ast.copy_location(ast.Constant(value=True), n) if n.id == "keep_blank_values" else n
+
+        def visit_If(self, n):
+            self.generic_visit(n)
+            t = n.test
+            if isinstance(t, ast.UnaryOp) and isinstance(t.op, ast.Not) and isinstance(t.operand, ast.Constant) \
+                    and t.operand.value is True:
+                return n.orelse or None
+            return n
+    node = Sub().visit(node)
+    node.args.args = [a for a in node.args.args if a.arg == "qs"]
+    node.args.defaults = []
+    ast.fix_missing_locations(node)
+    return node
+
+
+CFG_QSL = {"name": "src_parse_qsl", "params": [("qs", "list N")], "ret": "list (list N * option (list N))", "num": "Z",
+           "kinds": {"qs": "str", "pairs": "lstr", "pair": "str", "key": "str", "sep": "str", "value": "ostr",
+                     "ret": "lpair", "s1": "str", "s2": "str"},
+           "none_by_name": {"value": "None"},
+           "rv_default": "[]", "globals": GLOBALS,
+           "truthy": {"str": "nonempty", "lstr": "is_nonempty", "ostr": "opt_nonempty"},
+           "calls": {"unquote": (_call_unquote, "str")}}
+
+
+def shape_partition_ostr(T, s, probe, scope=None):
+    """key, sep, value = pair.partition('=') where value later becomes None: value is bound as Some text"""
+    if isinstance(s, ast.Assign) and len(s.targets) == 1 and isinstance(s.targets[0], ast.Tuple) and \
+            len(s.targets[0].elts) == 3 and all(isinstance(x, ast.Name) for x in s.targets[0].elts) and \
+            isinstance(s.value, ast.Call) and isinstance(s.value.func, ast.Attribute) and s.value.func.attr == "partition":
+        names = [x.id for x in s.targets[0].elts]
+        if T.cfg["kinds"].get(names[2]) != "ostr":
+            return None
+        if probe:
+            return [n for n in names]
+        scope.update(names)
+        return "let '(%s, %s, _v0) := %s in\nlet %s := Some _v0 in\n" % (
+            py2coq.cname(names[0]), py2coq.cname(names[1]), T.expr(s.value, scope), py2coq.cname(names[2]))
+    return None
+
+
+CFG_QSL["shapes"] = [shape_partition_ostr]
+
+
+# ---- QueryParamDict.to_text ---------------------------------------------------------------------------
+def _call_quote(name):
+    def f(T, e, scope):
+        if len(e.args) != 1 or [k.arg for k in e.keywords] not in ([], ["full_quote"]):
+            raise Unsupported("%s called with other arguments" % name)
+        fq = T.expr(e.keywords[0].value, scope) if e.keywords else "true"
+        return "(src_%s %s %s)" % (name, T.sexpr(e.args[0], scope), fq)
+    return (f, "str")
+
+
+def iter_items_multi(T, e, scope):
+    """for k, v in self.iteritems(multi=True): the pairs of the multidict in insertion order"""
+    if isinstance(e, ast.Call) and isinstance(e.func, ast.Attribute) and e.func.attr == "iteritems" and \
+            _is_name(e.func.value, "self") and not e.args and len(e.keywords) == 1 and e.keywords[0].arg == "multi" and \
+            isinstance(e.keywords[0].value, ast.Constant) and e.keywords[0].value.value is True:
+        return "self"
+    return None
+
+
+CFG_QTT = {"name": "src_query_to_text", "params": [("self", "list (list N * option (list N))"), ("full_quote", "bool")],
+           "ret": "list N", "num": "Z",
+           "kinds": {"k": "str", "v": "ostr", "key": "str", "val": "str", "ret_list": "lstr", "full_quote": "bool"},
+           "defaults": {"full_quote": "False"}, "rv_default": "(@nil N)", "globals": GLOBALS,
+           "truthy": {"str": "nonempty", "lstr": "is_nonempty", "ostr": "opt_nonempty"},
+           "calls": {"quote_query_part": _call_quote("quote_query_part")},
+           "iterables": [iter_items_multi]}
+
+
+# ---- parse_url: the authority splitting ------------------------------------------------------------------
+STR_SUBS = {("str", "[0]"): ("py_char0", "char"), ("str", "[1:]"): ("(@tl N)", "str"),
+            ("str", "[:2]"): ("(firstn 2)", "str"), ("str", "[:1]"): ("(firstn 1)", "str")}
+
+
+def _tuple_of_names(t, names):
+    return isinstance(t, ast.Tuple) and [getattr(x, "id", None) for x in t.elts] == names
+
+
+def slice_parse_url(node):
+    """two synthetic functions from consecutive statements of parse_url (fail closed if they are not found):
+       user, pw, hostinfo = None, None, au_text ; if au_text: ...            -> (user, pw, hostinfo)
+       host, port = None, None ; if hostinfo: ...                            -> (host, port)"""
+    body = node.body
+    fa = fb = None
+    for i, st in enumerate(body[:-1]):
+        if isinstance(st, ast.Assign) and len(st.targets) == 1 and isinstance(body[i + 1], ast.If):
+            if _tuple_of_names(st.targets[0], ["user", "pw", "hostinfo"]) and _is_name(body[i + 1].test, "au_text"):
+                fa = [st, body[i + 1]]
+            if _tuple_of_names(st.targets[0], ["host", "port"]) and _is_name(body[i + 1].test, "hostinfo"):
+                fb = [st, body[i + 1]]
+    if fa is None or fb is None:
+        raise Unsupported("parse_url: the authority-splitting statements were not found")
+    # nothing between the two slices and before parse_host may touch these names in another way
+    idx = body.index(fa[0])
+    if body[idx + 2] is not fb[0]:
+        raise Unsupported("parse_url: statements between the userinfo and the host/port splitting")
+    nxt = body[body.index(fb[0]) + 2]
+    if ast.unparse(nxt) != "family, host = parse_host(host)":
+        raise Unsupported("parse_url: statement after the host/port splitting changed: %s" % ast.unparse(nxt))
+
+    def mk(name, param, stmts, ret):
+        f = ast.FunctionDef(name=name, args=ast.arguments(posonlyargs=[], args=[ast.arg(arg=param)], kwonlyargs=[],
+                                                          kw_defaults=[], defaults=[]),
+                            body=stmts + [ast.Return(value=ast.Tuple(elts=[ast.Name(id=n, ctx=ast.Load()) for n in ret],
+                                                                     ctx=ast.Load()))], decorator_list=[])
+        ast.fix_missing_locations(f)
+        return f
+    return mk("a", "au_text", fa, ["user", "pw", "hostinfo"]), mk("b", "hostinfo", fb, ["host", "port"])
+
+
+CFG_UI = {"name": "src_split_userinfo", "params": [("au_text", "list N")], "ret": "(list N * list N * list N)", "num": "Z",
+          "kinds": {"au_text": "str", "user": "str", "pw": "str", "hostinfo": "str", "userinfo": "str", "sep": "str", "_": "str"},
+          "none_by_name": {"user": "(@nil N)", "pw": "(@nil N)"},      # URL.__init__ reads None as ''
+          "rv_default": "([], [], [])", "globals": GLOBALS, "truthy": {"str": "nonempty"}}
+
+
+def shape_try_port(T, s, probe, scope=None):
+    """try: port = int(port_str)  except ValueError: if port_str: raise URLParseError(...)  ; port = None"""
+    if not isinstance(s, ast.Try):
+        return None
+    try:
+        assert len(s.body) == 1 and len(s.handlers) == 1 and not s.orelse and not s.finalbody
+        assert ast.unparse(s.body[0]) == "port = int(port_str)"
+        h = s.handlers[0]
+        assert isinstance(h.type, ast.Name) and h.type.id == "ValueError" and h.name is None and len(h.body) == 2
+        i, a = h.body
+        assert isinstance(i, ast.If) and _is_name(i.test, "port_str") and not i.orelse and len(i.body) == 1
+        r = i.body[0]
+        assert isinstance(r, ast.Raise) and isinstance(r.exc, ast.Call) and _is_name(r.exc.func, "URLParseError")
+        assert ast.unparse(a) == "port = None"
+    except (AssertionError, AttributeError):
+        raise Unsupported("try statement of an unknown shape")
+    if probe:
+        return ["port"]
+    return "let port := port_of O port_str in\n"
+
+
+CFG_HP = {"name": "src_split_hostport", "params": [("hostinfo", "list N")], "ret": "(list N * mres (option Z))", "num": "Z",
+          "kinds": {"hostinfo": "str", "host": "str", "sep": "str", "port_str": "str", "host_right": "str", "_": "str",
+                    "port": "mport"},
+          "none_by_name": {"host": "(@nil N)", "port": "(MOk None)"},
+          "rv_default": "([], MOk None)", "globals": GLOBALS, "truthy": {"str": "nonempty"},
+          "subscripts": STR_SUBS, "shapes": [shape_try_port]}
+
+
 HEADER = """(* GENERATED on every run by harness/translators/c06_src.py from %s; do not edit. *)
 From Boltons Require Import Lib.Prelude Lib.PySrc Lib.C06_Text Model.C06_Model Lib.C06_PySrc.
 Open Scope N_scope.
@@ -304,6 +544,12 @@ def generate(repo):
         out.append(UT(cfg_quote(fn)).function(node))
     node = normalise_utb(py2coq.get_function(path, "unquote_to_bytes"))
     out.append(UT(dict(CFG_UTB)).function(node))
+    node = normalise_qsl(py2coq.get_function(path, "parse_qsl"))
+    out.append(UT(dict(CFG_QSL)).function(node))
+    out.append(UT(dict(CFG_QTT)).function(py2coq.get_function(path, "QueryParamDict.to_text")))
+    fa, fb = slice_parse_url(py2coq.get_function(path, "parse_url"))
+    out.append(UT(dict(CFG_UI)).function(fa))
+    out.append(UT(dict(CFG_HP)).function(fb))
     out.append("End Src.\n")
     return {"C06_Src": "\n".join(out)}
 
